@@ -4,7 +4,7 @@ from . import purecore
 TB_COMMON = [
     'Coq 8.16.1 kernel (coqc); vm_compute used for Examples/witnesses/finite facts; no native_compute',
     'no axioms declared; Print Assumptions output per theorem is recorded in this file',
-    'extraction: ExtrOcamlBasic only (bool/option/unit/list/prod/sumbool/comparison mapped to OCaml types), no Extract Constant; nat/N/Z stay extracted inductives; OCaml 4.13.1',
+    'extraction: ExtrOcamlBasic only (Extract Inductive bool/option/unit/list/prod/sumbool/sumor => OCaml types; Extract Inlined Constant andb => (&&), orb => (||)), no directive of our own; nat/N/Z/positive stay extracted inductives; OCaml 4.13.1',
     'ocaml/reg.ml, v_*.ml, main.ml: record parser and comparison glue',
 ]
 
